@@ -8,6 +8,22 @@
 #include <xercesc/util/RefArrayVectorOf.hpp>
 using namespace xv;
 static bool g_init = false;
+// the string-level targets take UTF-16 strings from strictly valid UTF-8 only: lone surrogates are not text (and only reachable through the raw API)
+static bool validUtf8(const std::string& s) {
+    size_t i = 0, n = s.size();
+    while (i < n) {
+        unsigned c = (unsigned char)s[i]; int k; unsigned cp;
+        if (c < 0x80) { i++; continue; }
+        else if (c >= 0xC2 && c <= 0xDF) { k = 1; cp = c & 0x1F; }
+        else if (c >= 0xE0 && c <= 0xEF) { k = 2; cp = c & 0x0F; }
+        else if (c >= 0xF0 && c <= 0xF4) { k = 3; cp = c & 0x07; }
+        else return false;
+        for (int j = 1; j <= k; j++) { if (i + j >= n) return false; unsigned t = (unsigned char)s[i + j]; if ((t & 0xC0) != 0x80) return false; cp = (cp << 6) | (t & 0x3F); }
+        if ((k == 2 && (cp < 0x800 || (cp >= 0xD800 && cp <= 0xDFFF))) || (k == 3 && (cp < 0x10000 || cp > 0x10FFFF))) return false;
+        i += k + 1;
+    }
+    return true;
+}
 static void die(const char* why) { fprintf(stderr, "\n==XV-ORACLE== %s\n", why); fflush(stderr); __builtin_trap(); }
 extern "C" int LLVMFuzzerTestOneInput(const uint8_t* data, size_t size) {
     if (!g_init) { g_init = true; XMLPlatformUtils::Initialize(); }
@@ -24,6 +40,14 @@ extern "C" int LLVMFuzzerTestOneInput(const uint8_t* data, size_t size) {
     // bound nesting of unbounded quantifiers: more than 3 of * + { in one pattern is not explored (catastrophic backtracking)
     int q = 0; for (size_t i = 0; i < pat.size(); i++) if (pat[i] == '*' || pat[i] == '+' || pat[i] == '{') q++;
     if (q > 3) return 0;
+    if (!validUtf8(pat) || !validUtf8(sub)) return 0;
+    // known finding C01-regex-nested-closure-recursion (= C11-nested-nullable-closure-recursion): a quantified group whose body itself contains a
+    // quantifier can recurse without bound in RegularExpression::match (stack overflow); the class is filtered here so that the campaign continues
+    static const bool noFilter = getenv("XV_NO_FILTER") != 0;      // witnesses of the known finding are replayed with the filter off
+    for (size_t i = 0; !noFilter && i + 1 < pat.size(); i++)
+        if (pat[i] == ')' && (pat[i + 1] == '*' || pat[i + 1] == '+' || pat[i + 1] == '{')) {
+            for (size_t j = 0; j < i; j++) if (pat[j] == '*' || pat[j] == '+' || pat[j] == '?' || pat[j] == '{') return 0;
+        }
     X xp(pat), xs(sub), xo(optsets[oi]);
     try {
         RegularExpression re(xp.c(), xo.c());
